@@ -70,7 +70,7 @@ def monolayer(name):
     return u
 
 
-def make(name, form, facet=None, layers=None, pbcz=True, mcs=6.0, lateral_min=None):
+def make(name, form, facet=None, layers=None, pbcz=True, mcs=6.0, lateral_min=None, gap=None):
     """Single crystal: bulk supercell or slab, repeated so that every periodic height exceeds 2*mcs+0.5 (or lateral_min).
     Returns (Atoms, None) or (None, reason)."""
     import ase.build
@@ -91,7 +91,13 @@ def make(name, form, facet=None, layers=None, pbcz=True, mcs=6.0, lateral_min=No
     reps = np.ceil(need / h).astype(int)
     reps[2] = 1
     s = s.repeat(tuple(int(x) for x in reps))
-    if pbcz and h[2] < 2 * mcs + 0.5:
+    if pbcz and gap is not None:
+        # thin vacuum: the slab and its periodic image are `gap` apart (centre to centre of the facing atoms); the cell must
+        # still be higher than 2*max_cell_size
+        s.center(vacuum=gap / 2.0, axis=2)
+        if heights(s.get_cell())[2] < 2 * mcs + 0.5:
+            return None, "thin-vacuum-cell-too-low"
+    elif pbcz and h[2] < 2 * mcs + 0.5:
         s.center(vacuum=(2 * mcs + 1) / 2 + 2, axis=2)
     s.set_pbc([True, True, bool(pbcz)])
     return s, None
@@ -122,6 +128,22 @@ def precondition(s, noise, bond_threshold=0.65, overlap_threshold=-0.6, base=0.1
     if len(seen) != n:
         return "not-bonded-with-margin"
     return None
+
+
+def image_clearance(s):
+    """smallest radius-corrected distance between a slab (periodic along z) and its periodic image along z"""
+    from ase.data import covalent_radii
+    n = len(s)
+    b = s.copy()
+    b.translate(np.asarray(s.get_cell())[2])
+    both = s + b
+    c = np.asarray(s.get_cell()).copy()
+    c[2] = c[2] * 4.0
+    both.set_cell(c, scale_atoms=False)
+    both.set_pbc([True, True, False])
+    D = both.get_all_distances(mic=True)[:n, n:]
+    r = covalent_radii[s.get_atomic_numbers()]
+    return float((D - r[:, None] - r[None, :]).min())
 
 
 @st.composite
